@@ -235,7 +235,7 @@ def _zero_background(view):
 
 
 def mesh_name(cfg):
-    _kind, name, dim, mult, disp, tag = cfg
+    _kind, name, dim, mult, disp, tag = cfg[:6]
     return "mesh/%s/%s/m=%s/%s" % (name, dim, mult, tag)
 
 
@@ -246,13 +246,28 @@ def finding_class(info, dim, disp, iface):
     return "kernel-arguments"
 
 
+def shells_visible(info, mult):
+    """SasviewModel(multiplicity=m) exposes shells 1..m of every vector parameter
+    (and their magnetic triples), nothing beyond."""
+    ctl = control_of(info)
+    names = set(model_class(info)(mult).params.keys())
+    vec = [p for p in info.parameters.kernel_parameters if p.length_control == ctl.id]
+    want = set(p.id + str(k) for p in vec for k in range(1, int(mult) + 1))
+    deny = set(p.id + str(k) for p in vec for k in range(int(mult) + 1, p.length + 1))
+    deny |= set(n + t for n in list(deny) for t in ("_M0", "_mtheta", "_mphi"))
+    missing, extra = sorted(want - names), sorted(deny & names)
+    return (not missing and not extra and ctl.name not in names,
+            "missing %s, exposed beyond the multiplicity %s" % (missing, extra))
+
+
 def mesh_unit(cfg):
-    _kind, name, dim, mult, disp, tag = cfg
+    _kind, name, dim, mult, disp, tag = cfg[:6]
+    nmag = cfg[6] if len(cfg) > 6 else 1
     u = Unit(mesh_name(cfg), timeout_ms=60000)
     u.functions(*FUNCS)
     install()
     info = core.load_model_info(name)
-    direct, prefs, A, _m0 = build_pars(info, mult, disp, strict=(dim == "1d" and tag.startswith("orientation")))
+    direct, prefs, A, _m0 = build_pars(info, mult, disp, nmag=nmag, strict=(dim == "1d" and tag.startswith("orientation")))
     cut = symx.real("cutoff")
     prefs["cutoff"] = 0.03     # trims the tails of a 5-point gaussian
     A = A + [cut.t >= 0] + I.INF_AXIOMS
@@ -272,6 +287,14 @@ def mesh_unit(cfg):
     consts = dict((n, z3.Real(n)) for n in prefs)
     if tag == "defaults" or tag.startswith("pd:"):
         _validate_encoding(u, cfg, info, direct, prefs, paths)
+    ctl = control_of(info)
+    if tag == "defaults" and ctl is not None and not ctl.choices:
+        ok, detail = shells_visible(info, mult)
+        u.prove("multiplicity-expands-the-right-shells", z3.BoolVal(ok), A, lambda m: {
+            "reproduced": not shells_visible(core.load_model_info(name), mult)[0],
+            "key": "C10/multiplicity/%s/visible-shells" % name,
+            "what": "%s(multiplicity=%s): %s" % (name, mult, detail),
+            "inputs": {"harness": "shells", "model": name, "mult": mult}, "block": None})
 
     for pi, p in enumerate(paths):
         if p.cut:
@@ -340,7 +363,7 @@ def _validate_encoding(u, cfg, info, direct, prefs, paths):
     """Translator validation: the value vector the symbolic run hands to the
     kernel, evaluated at concrete inputs (UF leaves -> the real distribution
     code), against the real get_mesh + make_kernel_args on floats."""
-    _kind, name, dim, mult, disp, tag = cfg
+    _kind, name, dim, mult, disp, tag = cfg[:6]
     env = dict(prefs)
     env.update({"+inf": float("inf"), "-inf": float("-inf"), "L0.tw": 1.0, "L0.sv": 1.0, "L0.fv": 1.0})
     funcs = _LeafFuncs()
@@ -428,7 +451,7 @@ def compare_real(name, mult, dim, conc, cutoff, iface):
 
 
 def _mesh_handler(u, cfg, info, direct, prefs, consts, H, iface, oracle, note):
-    _kind, name, dim, mult, disp, tag = cfg
+    _kind, name, dim, mult, disp, tag = cfg[:6]
 
     def handler(m):
         ifs = [iface] if iface else IFACES[1:]
@@ -437,12 +460,11 @@ def _mesh_handler(u, cfg, info, direct, prefs, consts, H, iface, oracle, note):
         for use_prefs, cval in ((True, None), (True, 1e-3), (True, 6e-3), (True, 0.2), (False, None)):
             env = _concretise(m, H, prefs, consts, use_prefs)
             if cval is not None:
-                if not any("cutoff" in symx.consts_of([h]) for h in H[len(H) - len([0]):]) and \
-                        all(bool(symx.evalf(h, dict(env, cutoff=cval))) for h in H
-                            if set(symx.consts_of([h])) == {"cutoff"}):
-                    env["cutoff"] = cval
-                else:
+                cs = [set(symx.consts_of([h])) for h in H]
+                if any("cutoff" in c and len(c) > 1 for c in cs) or not all(
+                        bool(symx.evalf(h, {"cutoff": cval})) for h, c in zip(H, cs) if c == {"cutoff"}):
                     continue
+                env["cutoff"] = cval
             conc = _conc_pars(direct, env)
             for who in ifs:
                 differs, detail = compare_real(name, mult, dim, conc, env["cutoff"], who)
@@ -482,6 +504,8 @@ def mesh_configs(models, quick):
             dims = ["1d", "2d"] if (P.has_2d and (not quick or ori)) else ["1d"]
             for dim in dims:
                 out.append(("mesh", name, dim, mult, (), "defaults"))
+                if not quick and P.nmagnetic >= 2 and dim == "2d":
+                    out.append(("mesh", name, dim, mult, (), "defaults+2 magnetic amplitudes", 2))
                 k = 0
                 groups = [pd1[i:i + 2] for i in range(0, len(pd1), 2)]
                 if quick:
@@ -1150,6 +1174,10 @@ def replay(cex):
                              pname, np.array(i["values"]), np.array(i["weights"]))
         print("explicit mesh", list(ref), "SasviewModel with ArrayDispersion", list(out))
         return 0 if C.close(ref, out, rtol=1e-9) else 1
+    if i["harness"] == "shells":
+        ok, detail = shells_visible(core.load_model_info(i["model"]), i["mult"])
+        print(i["model"], i["mult"], detail)
+        return 0 if ok else 1
     accepted, detail = real_refuse(i["model"], i["mult"], i["iface"], i["valid"], i["key"])
     print("real %s on %s with extra name %r: %s" % (i["iface"], i["model"], i["key"], detail))
     return 1 if accepted else 0
@@ -1159,9 +1187,10 @@ def configs(chk):
     models = core.list_models()      # QUICK_MODELS is the fall-back subset if the budget shrinks
     if os.environ.get("C10_SUBSET"):
         models = QUICK_MODELS
-    cfgs = (refuse_configs(models, chk.quick) + select_configs(chk.quick) + array_configs(models, chk.quick)
-            + mesh_configs(models, chk.quick))
-    return cfgs
+    me, se = mesh_configs(models, chk.quick), select_configs(chk.quick)
+    re_, ar = refuse_configs(models, chk.quick), array_configs(models, chk.quick)
+    # a few of each kind first (evidence samples), then the slow mesh units before the fast ones
+    return me[1:3] + se[:2] + re_[:2] + me[:1] + me[3:] + ar + se[2:] + re_[2:]
 
 
 def run(chk):
@@ -1184,7 +1213,7 @@ def run(chk):
                   "dispersed parameters per unit": "<= 2 (+ 1 orientation), npts in %s, types cycled over %s; %s"
                                                    % ("{5,0}" if chk.quick else "{5,1,0}", PD_TYPES,
                                                       "first pair of size parameters" if chk.quick else "every size parameter"),
-                  "symbolic magnetic amplitudes": "first sld only (others at their default 0)",
+                  "symbolic magnetic amplitudes": "first sld only (others at their default 0); first two in one thorough 2-D unit per model",
                   "q points": "2 (3 in some thorough selection units)",
                   "symbolic key": "one extra entry; setParam names with 0, 1 or 2 dots",
                   "solver timeout": "60 s per obligation, 20 s per fork"}
@@ -1203,7 +1232,10 @@ def run(chk):
                          "direct_model.resolution / resolution2d -> recording Pinhole1D/Slit1D/Pinhole2D in the "
                          "selection units that have resolution columns; real Perfect1D / Pinhole2D otherwise",
                          "NaN data: vlib.ifaces.YVal (value, symbolic NaN flag)"]
-    chk.assumptions = ["centre of every polydisperse parameter inside its hard limits; width >= 0, nsigmas > 0, cutoff >= 0",
+    chk.assumptions = ["mask convention checked: nonzero = excluded (Data2D docstring; Data1D/Data2D constructors set "
+                       "mask=isnan(y); load_data inverts the loader's 2-D mask); the Data1D docstring line 'values to "
+                       "include' contradicts its own constructor (documentation defect, proposed_fixes/C10-data1d-mask-docstring.diff)",
+                       "centre of every polydisperse parameter inside its hard limits; width >= 0, nsigmas > 0, cutoff >= 0",
                        "1-D orientation-dispersity units: the size distribution is non-degenerate (width, centre > 0)",
                        "raw kernel outputs L0.tw, L0.sv non-zero in the selection and refusal units",
                        "the extra key differs from every documented name and from the helper's own keyword names",
